@@ -41,6 +41,70 @@ def ratios_of(w, comps, nsta, nlta):
     return out
 
 
+def extra_streams(ctx, rng):
+    """(a) windows with different sampling rates in one STA/LTA call: every window is judged with ITS OWN time step (the decision depends on
+    that window only); (b) the same window objects screened again after their samples were edited in place: the second decision is taken on the
+    samples as they are now"""
+    import hvsrpy
+    # (a)
+    for j in range(ctx.budget(12, 100)):
+        nw = int(rng.integers(3, 8))
+        dts = [float(rng.choice([0.005, 0.01, 0.02])) for _ in range(nw)]
+        if len(set(dts)) < 2:
+            dts[-1] = 0.02 if dts[0] != 0.02 else 0.005
+        wins = [gen_windows(rng, 1, 400, d)[0] for d in dts]
+        comps = [COMPS, ["vt"], ["ns", "ew"]][j % 3]
+        sta, lta = float(rng.choice([0.2, 0.1, 0.25])), float(rng.choice([1.0, 1.5]))
+        lo, hi = float(rng.choice([0.2, 0.4])), float(rng.choice([2.0, 3.0]))
+        recs = [pg.make_srecord(w) for w in wins]
+        try:
+            kept = hvsrpy.sta_lta_window_rejection(recs, sta_seconds=sta, lta_seconds=lta, min_sta_lta_ratio=lo, max_sta_lta_ratio=hi, components=tuple(comps))
+        except (IndexError, ZeroDivisionError, ValueError):
+            continue
+        res = [any(k is r for k in kept) for r in recs]
+        mo = [None] * nw
+        near = False
+        for d in sorted(set(dts)):
+            idx = [k for k in range(nw) if dts[k] == d]
+            t = Toks(run_driver([f"stalta {hexf(sta)} {hexf(lta)} {hexf(d)} {hexf(lo)} {hexf(hi)} {wins_tokens([wins[k] for k in idx], comps)}"])[0])
+            if t.tok() != "ok":
+                mo = None
+                break
+            nsta, nlta = t.nat(), t.nat()
+            for k, b in zip(idx, t.bvec()):
+                mo[k] = b
+                rs = np.concatenate(ratios_of(wins[k], comps, nsta, nlta))
+                near = near or bool(np.min(np.abs(rs - hi)) < 1e-9 * hi or np.min(np.abs(rs - lo)) < 1e-9)
+        ctx.supporting["mixed_dt_stalta_cases"] = ctx.supporting.get("mixed_dt_stalta_cases", 0) + 1
+        if mo is not None and res != mo and not near:
+            ctx.violation("decision-depends-on-that-window-only", dict(case=dict(kind="stalta-mixed-dt", dts=dts, sta=sta, lta=lta, lo=lo, hi=hi, comps=comps, wins=wins), impl=res, model=mo),
+                          seam="sta_lta_window_rejection on windows with different time steps")
+    # (b)
+    for j in range(ctx.budget(12, 100)):
+        nw = int(rng.integers(3, 8)); dt = 0.01
+        wins = gen_windows(rng, nw, 200, dt)
+        recs = [pg.make_srecord(w) for w in wins]
+        comps = [COMPS, ["vt"], ["ns", "ew"]][j % 3]
+        normalized = bool(j % 2)
+        allmax = [max(np.max(np.abs(w[c])) for c in comps) for w in wins]
+        thr = 0.7 if normalized else float(np.median(allmax) * 1.3)
+        hvsrpy.maximum_value_window_rejection(recs, maximum_value_threshold=thr, normalized=normalized, components=tuple(comps))
+        k = int(rng.integers(0, nw))
+        fac = float(rng.choice([30.0, 1e-3]))
+        for c in COMPS:      # edit the samples through the public array, in place
+            getattr(recs[k], c).amplitude[:] *= fac
+            wins[k] = dict(wins[k]); wins[k][c] = [float(x) for x in getattr(recs[k], c).amplitude]
+        kept = hvsrpy.maximum_value_window_rejection(recs, maximum_value_threshold=thr, normalized=normalized, components=tuple(comps))
+        res = [any(q is r for q in kept) for r in recs]
+        tk = Toks(run_driver([f"maxval {hexf(thr)} {1 if normalized else 0} {wins_tokens(wins, comps)}"])[0])
+        tk.tok()
+        mo = tk.bvec()
+        ctx.supporting["rescreen_after_edit_cases"] = ctx.supporting.get("rescreen_after_edit_cases", 0) + 1
+        if res != mo:
+            ctx.violation("keeps-exactly-windows-satisfying-criterion", dict(case=dict(kind="maxval-after-in-place-edit", thr=thr, normalized=normalized, comps=comps, edited=k, factor=fac, wins=wins),
+                                                                           impl=res, model=mo), seam="maximum_value_window_rejection called again after an in-place edit")
+
+
 def run(ctx):
     import hvsrpy
     ctx.rule = ("cases = lists of 2-10 windows (3 components, 60-400 samples, planted transients and quiet gaps) x STA/LTA lengths not exceeding the window "
@@ -108,6 +172,7 @@ def run(ctx):
             order_ok = [id(k) for k in kept] == [id(r) for r, b in zip(recs, res) if b]
             cases.append(dict(kind="maxval", dt=dt, n=nsmp, thr=thr, normalized=normalized, comps=comps, wins=wins, impl=res, order_ok=order_ok, hv=hv, hvkind=kind, masks_dirty_before=dirty))
             lines.append(f"maxval {hexf(thr)} {1 if normalized else 0} {wins_tokens(wins, comps)}")
+    extra_streams(ctx, np.random.default_rng(ctx.seed + 13))
     outs = run_driver(lines)
     for c, o in zip(cases, outs):
         t = Toks(o)
